@@ -396,7 +396,14 @@ func (c *FnCtx) dryRun(fr *frame, li *loopInfo, st *State, phis []*ssa.Phi, bloc
 	s := st.clone()
 	cur := map[*ssa.Phi]Val{}
 	for _, p := range phis {
+		entry, hadEntry := fr.regs[p]
 		cur[p] = c.freshVal(s, p.Type(), "dry_"+phiName(p))
+		if hadEntry && sliceRefStable(p, li) && entry.K == kSlice {
+			v := cur[p]
+			v.Ref = entry.Ref
+			c.assumeWellTyped(s, v)
+			cur[p] = v
+		}
 	}
 	local := map[*ssa.BasicBlock][]edgeState{}
 	local[li.head] = []edgeState{{nil, s}}
@@ -705,6 +712,11 @@ func (c *FnCtx) loopHead(fr *frame, li *loopInfo, st *State, entryPhi map[*ssa.P
 	newPhi := map[*ssa.Phi]Val{}
 	for _, p := range phis {
 		v := c.freshVal(st, p.Type(), phiName(p))
+		if v.K == kSlice && entryPhi[p].K == kSlice && sliceRefStable(p, li) {
+			// re-slicing never changes the object a slice points into
+			v.Ref = entryPhi[p].Ref
+			c.assumeWellTyped(st, v)
+		}
 		newPhi[p] = v
 		fr.regs[p] = v
 	}
@@ -722,6 +734,41 @@ func (c *FnCtx) loopHead(fr *frame, li *loopInfo, st *State, entryPhi map[*ssa.P
 		fr.loopAuto = map[*loopInfo][]autoInv{}
 	}
 	fr.loopAuto[li] = auto
+}
+
+// sliceRefStable: every value the loop carries back into the slice phi p is
+// p itself re-sliced (s = s[a:b]); the object it points into is then the
+// one it had on entry, by construction.
+func sliceRefStable(p *ssa.Phi, li *loopInfo) bool {
+	if _, ok := p.Type().Underlying().(*types.Slice); !ok {
+		return false
+	}
+	var derived func(v ssa.Value, depth int) bool
+	derived = func(v ssa.Value, depth int) bool {
+		if v == p {
+			return true
+		}
+		if depth > 4 {
+			return false
+		}
+		if s, ok := v.(*ssa.Slice); ok {
+			if _, isSlice := s.X.Type().Underlying().(*types.Slice); isSlice {
+				return derived(s.X, depth+1)
+			}
+		}
+		return false
+	}
+	any := false
+	for i, pr := range li.head.Preds {
+		if !li.blocks[pr] {
+			continue
+		}
+		any = true
+		if !derived(p.Edges[i], 0) {
+			return false
+		}
+	}
+	return any
 }
 
 func rootOf(t types.Type) types.Type {
